@@ -18,8 +18,9 @@ From Coq Require Import ZArith List Bool.
 Import ListNotations.
 Open Scope Z_scope.
 
-Definition TG : Z := 1000000000.          (* nanoseconds per second *)
-Definition TDAY : Z := 86400.             (* seconds per day *)
+(* notations, not definitions: the numerals appear as such in every statement (no delta steps) *)
+Notation TG := 1000000000 (only parsing).     (* nanoseconds per second *)
+Notation TDAY := 86400 (only parsing).        (* seconds per day *)
 
 (** ** Acceptance of the constructor forms (property text, first sentence) *)
 Definition hms_ok (h m s : Z) : bool := (h <? 24) && (m <? 60) && (s <? 60).
